@@ -470,6 +470,10 @@ fn dec_modulo(dividend: &DecQuad, divisor: &DecQuad) -> DecQuad {
 
 /// Converts a string in scientific notation into digits without exponent.
 fn scientific_to_plain(s: String) -> String {
+  // the sign is put back in front of the converted digits
+  if let Some(unsigned) = s.strip_prefix('-') {
+    return format!("-{}", scientific_to_plain(unsigned.to_string()));
+  }
   if s.contains("E+") {
     let mut split1 = s.split("E+");
     let before_exponent = split1.next().unwrap();
@@ -482,6 +486,10 @@ fn scientific_to_plain(s: String) -> String {
       let zeroes = (0..(exponent_digits - after_decimal.len())).map(|_| "0").collect::<String>();
       format!("{}{}{}", before_decimal, after_decimal, zeroes)
     } else {
+      if before_exponent == "0" {
+        // zero with a positive exponent is still just zero
+        return before_exponent.to_string();
+      }
       let zeroes = (0..exponent_digits).map(|_| "0").collect::<String>();
       format!("{}{}", before_exponent, zeroes)
     }
